@@ -206,6 +206,8 @@ def case_cuts(p):
                     pr.data_received(stream[pos:c])
                     pos = c
                     trans += 1
+                    if p.get("gap"):
+                        loop._vtime += p["gap"]  # the stream stalls that long before the next bytes arrive
                     o = observe(pr)
                     if o != sent[: len(o)]:
                         raise AssertionError("delivered is not a prefix of sent")
@@ -536,6 +538,8 @@ def run(ctx):
     work.append(("bigreads", {"sizes_plain": [90000, 150000], "read_sizes": [1024, 16384, 65535, 65536, 65553, 65554, 131072, 262144]}))
     if not quick:
         work.append(("bigreads", {"sizes_plain": [70000, 300000, 65000], "read_sizes": [1, 7, 1042, 4096, 65536, 100000, 262144, 524288]}))
+    for gap in (31.0, 3600.0) if quick else (1.0, 29.0, 31.0, 61.0, 3600.0, 1e6):
+        work.append(("cuts", {"msgs": [MSG_EVENT, MSG_SMALL, MSG_CHUNK2, MSG_204], "sizes": [37], "gap": gap}))
     work.append(("send_between", {"seq": [MSG_EVENT, MSG_SMALL, MSG_EVENT]}))
     work.append(("send_between", {"seq": [MSG_CHUNK2, MSG_CHUNK, MSG_CHUNK2]}))
     # corruption
